@@ -25,6 +25,7 @@ type c11Ev struct {
 	fr   string // call path of the frame the event happened in ("" = root function)
 	pre  map[types.Object]*c11V
 	key  string // loop: c11LoopKey
+	x    *c11V  // loop over a range: the value ranged over
 }
 
 type c11St struct {
@@ -32,7 +33,14 @@ type c11St struct {
 	heap  map[int]*c11Obj
 	as    []c11As
 	ev    []c11Ev
-	notes []string // imprecision met on this path (unsupported statement, ...): verdicts on such a path are Unknown
+	stack []c11Saved // environments of the callers of the function being executed (innermost last)
+	notes []string   // imprecision met on this path (unsupported statement, ...): verdicts on such a path are Unknown
+}
+
+// c11Saved is the environment of a suspended caller frame.
+type c11Saved struct {
+	path string
+	env  map[types.Object]*c11V
 }
 
 func c11NewSt() *c11St {
@@ -46,6 +54,13 @@ func (s *c11St) clone() *c11St {
 	}
 	for k, v := range s.heap {
 		n.heap[k] = v.clone()
+	}
+	for _, sv := range s.stack {
+		e := make(map[types.Object]*c11V, len(sv.env))
+		for k, v := range sv.env {
+			e[k] = v
+		}
+		n.stack = append(n.stack, c11Saved{path: sv.path, env: e})
 	}
 	n.as = append([]c11As(nil), s.as...)
 	n.ev = append([]c11Ev(nil), s.ev...)
